@@ -281,6 +281,16 @@ fn replay(run: &Run, v: &Value) -> i32 {
                     sink.violation("replay".into(), w, case.clone());
                 }
             }
+            Some("corpus") => {
+                let si = st(case["state"].as_str().unwrap());
+                let ci = case["index"].as_u64().unwrap() as usize;
+                let dir = case["to_server"].as_bool().unwrap();
+                let corpus = parsed_corpus();
+                let (k, m) = &corpus[ci];
+                if let Err(w) = check_cell(states[si], *k, None, m, dir) {
+                    sink.violation("replay".into(), w, case.clone());
+                }
+            }
             Some("seq") => {
                 // replay the letters on the implementation and on the table
                 let reps = representatives();
@@ -350,6 +360,36 @@ fn main() {
     };
 
     let mut sink = cell_sweep(&run);
+    // payload independence over widely varied real content: every parsed catalogue message in every cell
+    let corpus = parsed_corpus();
+    let ncorpus = corpus.len();
+    let mut kinds_seen = std::collections::BTreeSet::new();
+    for (k, _) in &corpus {
+        kinds_seen.insert(*k);
+    }
+    if kinds_seen.len() < 17 || ncorpus < 500 {
+        machinery_failure(run.prop, &format!("parsed payload corpus too small: {} messages of {} kinds", ncorpus, kinds_seen.len()));
+    }
+    {
+        let states = all_states();
+        let items: Vec<(usize, bool)> = (0..states.len()).flat_map(|s| [(s, true), (s, false)]).collect();
+        let s2 = par_run(run.threads, items.len(), |i, sink| {
+            let (si, dir) = items[i];
+            let live = !["Invalid", "SessionEncrypted", "Finished"].contains(&STATES[si]);
+            for (ci, (k, m)) in corpus.iter().enumerate() {
+                sink.case(fnv(0, format!("corpus {} {} {}", si, dir, ci).as_bytes()), live);
+                match check_cell(states[si], *k, None, m, dir) {
+                    Ok(c) => sink.count("parsed payload corpus", c),
+                    Err(what) => sink.violation(
+                        format!("cell {} {} {} content", STATES[si], KINDS[*k], dirn(dir)),
+                        format!("{} [message #{} of the parsed payload corpus: {:.200?}]", what, ci, m),
+                        json!({"kind":"corpus","state":STATES[si],"index":ci,"to_server":dir}),
+                    ),
+                }
+            }
+        });
+        sink.merge(s2);
+    }
     let cells = sink.evals;
     let b = bfs(&mut sink);
     let (all_init_states, all_init_transitions) = bfs_all_initial(&mut sink);
@@ -390,6 +430,7 @@ fn main() {
     cov.insert("max_depth".into(), json!(b.depth));
     cov.insert("accepted_transitions".into(), json!(b.accepted));
     cov.insert("cells_swept".into(), json!(cells));
+    cov.insert("parsed_payload_corpus_messages".into(), json!(ncorpus));
     cov.insert("all_25_initial_states".into(), json!({"states_visited": all_init_states, "transitions": all_init_transitions}));
     cov.insert("impl_states_reached".into(), json!(b.reached.len()));
     cov.insert("impl_states_unreached".into(), json!(unreached));
@@ -399,7 +440,7 @@ fn main() {
     );
     cov.insert("exhaustive".into(), json!(true));
     cov.insert("rule".into(), json!(
-        "E3: every (state, direction, kind, payload variant) cell incl. all 256x256 alerts, compared with the reference table; non-trivial = from-state is not one of the three constant rows (Invalid, SessionEncrypted, Finished). E1: BFS to fixpoint of (implementation state, table state, flow-NFA subset) from None over 23 kinds x 2 directions; every transition calls the real tls_state_transition"));
+        "E3: every (state, direction, kind, payload variant) cell incl. all 256x256 alerts, compared with the reference table, plus every cell with every message of a parsed payload corpus (handshake catalogue, magic randoms, hellos whose extension block is each known extension alone and in pairs); non-trivial = from-state is not one of the three constant rows (Invalid, SessionEncrypted, Finished). E1: BFS to fixpoint of (implementation state, table state, flow-NFA subset) from None over 23 kinds x 2 directions; every transition calls the real tls_state_transition"));
     let mut samples = b.samples.clone();
     samples.extend(sink.samples.iter().cloned());
     cov.insert("samples".into(), json!(samples));
